@@ -96,6 +96,57 @@ def tiny_streams():
     return out
 
 
+def _units(data):
+    offs = pi_offsets(data)
+    return [data[o:(offs[i + 1] if i + 1 < len(offs) else len(data))] for i, o in enumerate(offs)]
+
+
+def mixed_parameter_streams(rnd):
+    """One sequence whose pictures use different transform parameters (legal: they are per picture): the picture
+    data units of a second encoding are spliced, at byte level, into the sequence of a first one."""
+    from vc2_conformance.codec_features import CodecFeatures
+    from vc2_data_tables import WaveletFilters, Profiles
+
+    minimal = dict(_features())["hq_minimal"]
+    vp = type(minimal["video_parameters"])(minimal["video_parameters"], frame_width=16, frame_height=8, clean_width=16, clean_height=8)
+
+    def qm(d, dho):
+        m = {0: {"LL": 0}} if dho == 0 else dict([(0, {"L": 0})] + [(l, {"H": 1}) for l in range(1, dho + 1)])
+        for l in range(dho + 1, dho + d + 1):
+            m[l] = {"HL": 1, "LH": 1, "HH": 2}
+        return m
+
+    def enc(d, dho, first_pn, profile=Profiles.high_quality, fsc=0):
+        cf = CodecFeatures(minimal, video_parameters=vp, wavelet_index=WaveletFilters.haar_no_shift, wavelet_index_ho=WaveletFilters.le_gall_5_3,
+                           dwt_depth=d, dwt_depth_ho=dho, quantization_matrix=qm(d, dho), picture_bytes=96, profile=profile, fragment_slice_count=fsc)
+        pics = _pictures(cf, 1, rnd)
+        pics[0]["pic_num"] = first_pn
+        return encode_pics(cf, pics)
+
+    out = []
+    for name, plan, kw in (
+        ("hq_mixed_dho_up", [(1, 0), (1, 1), (1, 0)], {}),
+        ("hq_mixed_depth_down", [(2, 0), (1, 0), (0, 1)], {}),
+        ("ld_mixed_fragments", [(1, 1), (1, 0)], {"profile": Profiles.low_delay, "fsc": 1}),
+    ):
+        parts = [_units(enc(d, dho, i, **kw)) for i, (d, dho) in enumerate(plan)]
+        units = parts[0][:-1]
+        for p in parts[1:]:
+            units += p[1:-1]
+        units.append(parts[0][-1])
+        out.append((name, fix_offsets(b"".join(units))))
+    return out
+
+
+def encode_pics(cf, pics, *patterns):
+    from vc2_conformance.encoder import make_sequence
+    from vc2_conformance.bitstream import Stream, autofill_and_serialise_stream
+
+    f = io.BytesIO()
+    autofill_and_serialise_stream(f, Stream(sequences=[make_sequence(cf, pics, *patterns)]))
+    return f.getvalue()
+
+
 def base_streams():
     """[(name, bytes)] -- deterministic (fixed seed), cached per process"""
     global _BASE
@@ -109,6 +160,7 @@ def base_streams():
         out.append(("hq_minimal_padded", encode(cf, 2, rnd, "sequence_header (padding_data . auxiliary_data)* end_of_sequence")))
         out.append(("hq_minimal_two_sequences", out[0][1] + out[1][1]))
         out += tiny_streams()
+        out += mixed_parameter_streams(rnd)
         _BASE = out
     return _BASE
 
